@@ -128,6 +128,19 @@ def check_sfile(case, ctx):
         must(sfile.write, arg, fname, **kw)
     else:
         def w():
+            if case["table"]["seed"] % 2:
+                # an SFile object that already wrote (and read) another file and is re-pointed with open()
+                decoy = ctx.tmpfile("decoy.rec")
+                sf = sfile.SFile(decoy, "w")
+                sf.write(arg[:1], header={"decoy": 1})
+                sf.close()
+                sf.open(decoy)
+                sf.read()
+                sf.close()
+                sf.open(fname, "w")
+                sf.write(arg, **kw)
+                sf.close()
+                return
             with sfile.SFile(fname, "w") as sf:
                 sf.write(arg, **kw)
         must(w)
